@@ -39,7 +39,10 @@ class A(Adapter):
         sizes = [(10, 14, 4, 2, 3, 12, (10.0, -1.0, -1.0)),      # small, two agents
                  (11, 16, 4, 3, 2, 9, (5.0, -0.5, -2.0)),        # 11 nodes / 3 agents: unequal blocks 4,4,3
                  (7, 9, 5, 1, 3, 8, (10.0, -1.0, -1.0)),         # single agent
-                 (36, 72, 5, 3, 4, 70, None)]                    # MMST-v0 defaults
+                 (36, 72, 5, 3, 4, 70, None),                    # MMST-v0 defaults
+                 (10, 14, 4, 3, 2, 9, (10.0, -1.0, -1.0)),       # 10 nodes / 3 agents: blocks 4,3,3 (remainder 1: only the FIRST block is larger)
+                 (13, 20, 4, 4, 2, 10, (10.0, -1.0, -1.0)),      # 13 nodes / 4 agents: blocks 4,3,3,3
+                 (10, 14, 4, 2, 3, (8, 5), (10.0, -1.0, -1.0))]  # time_limit 8 with a generator built for max_step 5 (independent arguments)
         if tier != "quick":
             sizes += [(9, 12, 4, 2, 2, 3, (10.0, -1.0, -1.0)),    # time limit 3
                       (12, 18, 3, 3, 2, 10, (1.0, -0.25, -0.5)), (16, 26, 5, 4, 2, 20, (10.0, -1.0, -1.0)),
@@ -49,18 +52,22 @@ class A(Adapter):
                       (36, 72, 4, 3, 4, 70, (10.0, -1.0, -1.0))]
         out = []
         for n, e, d, a, k, tl, rv in sizes:
-            def build(n=n, e=e, d=d, a=a, k=k, tl=tl, rv=rv):
+            tl, ms = tl if isinstance(tl, tuple) else (tl, tl)
+
+            def build(n=n, e=e, d=d, a=a, k=k, tl=tl, rv=rv, ms=ms):
                 gen = SplitRandomGenerator(num_nodes=n, num_edges=e, max_degree=d, num_agents=a,
-                                           num_nodes_per_agent=k, max_step=tl)
+                                           num_nodes_per_agent=k, max_step=ms)
                 return MMST(generator=gen, reward_fn=None if rv is None else DenseRewardFn(reward_values=rv),
                             time_limit=tl)
             r = rv or (10.0, -1.0, -1.0)
-            out.append(Config(f"mmst-n{n}-e{e}-d{d}-a{a}-k{k}-t{tl}-r{r[0]}_{r[1]}_{r[2]}", build,
+            out.append(Config(f"mmst-n{n}-e{e}-d{d}-a{a}-k{k}-t{tl}{'' if ms == tl else f'-maxstep{ms}'}-r{r[0]}_{r[1]}_{r[2]}", build,
                               {"num_agents": a, "num_nodes": n, "num_nodes_per_agent": k, "time_limit": tl,
                                "r_conn": rat(r[0]), "r_step": rat(r[1]), "r_noop": rat(r[2]),
                                "max_degree": d, "num_edges": e, "fresh_mask": FRESH_MASK,
                                "guard_visited": GUARD_VISITED},
-                              agents=a, nodes=n, max_instances=60 if n > 20 else 200))
+                              agents=a, nodes=n, max_instances=60 if n > 20 else 200,
+                              # the step buffer is shorter than the episode: only the time limit is examined for this configuration
+                              **({"only": {"C11", "C03"}} if ms != tl else {})))
         return out
 
     # ---- serialisation
@@ -124,7 +131,15 @@ class A(Adapter):
                 else:
                     out.append(int(rng.integers(nn)))
             return np.asarray(out, dtype=np.int32)
-        return np.asarray([choose(policy, rng, mask[i], nn, t) for i in range(n)], dtype=np.int32)
+        acts = np.asarray([choose(policy, rng, mask[i], nn, t) for i in range(n)], dtype=np.int32)
+        # ties: with some probability every agent whose mask allows the most widely allowed node asks for it in the same step (two- and
+        # three-way conflicts over one node are what the tie-break of the environment is for, and uniform choices rarely produce them)
+        if n >= 2 and rng.random() < 0.35:
+            pop = mask.sum(axis=0)
+            if pop.max() >= 2:
+                node = int(rng.choice(np.flatnonzero(pop == pop.max())))
+                acts = np.where(mask[:, node], node, acts).astype(np.int32)
+        return acts
 
     def fan_actions(self, env, s, ts, rng, cap=4096):
         n, nn = env.num_agents, env.num_nodes
